@@ -84,6 +84,42 @@ fn av_value(id: u16, len: usize) -> Vec<u8> {
 
 const CHALLENGES: [[u8; 8]; 4] = [[0; 8], [0xFF; 8], [0x01, 0x23, 0x45, 0x67, 0x89, 0xAB, 0xCD, 0xEF], [0x80, 0, 0, 0, 0, 0, 0, 0]];
 
+/// several complete handshakes in the same thread, each on a fresh Ntlm object and each verified by the reference server
+fn handshakes_in_a_row(c: &Case) -> Outcome {
+    let real = c.block == "real-generator-130-handshakes";
+    let accounts: Vec<(String, String, String)> = if real {
+        (0..130).map(|i| ("DOM".to_string(), format!("user{}", i % 3), "S3cr3t".to_string())).collect()
+    } else {
+        [("Contoso", "alice", "pw"), ("CONTOSO", "alice", "pw"), ("contoso", "alice", "pw"), ("contoso", "Alice", "pw"), ("contoso", "Alice", "PW"), ("contoso", "Alice", "pw"), ("", "Alice", "pw"), ("contoso", "", "pw"), ("Contoso", "alice", "pw")]
+            .iter()
+            .map(|(d, u, p)| (d.to_string(), u.to_string(), p.to_string()))
+            .collect()
+    };
+    let cfg = ServerCfg::windows_like();
+    for (i, (domain, user, password)) in accounts.iter().enumerate() {
+        let hash = rn::nt_hash(password);
+        let mut ntlm = if c.via_hash { Ntlm::from_hash(domain.clone(), user.clone(), &hash) } else { Ntlm::new(domain.clone(), user.clone(), password.clone()) };
+        if !real {
+            let mut pattern = vec![i as u8 ^ 0x5A; 8];
+            pattern.extend_from_slice(&[i as u8 ^ 0xC3; 16]);
+            rnd::set_pattern(Some(pattern));
+        }
+        let negotiate = ntlm.create_negotiate_message();
+        let challenge = rn::challenge_message(&cfg);
+        let token = negotiate.and_then(|n| ntlm.read_challenge_message(&challenge).map(|t| (n, t)));
+        rnd::set_pattern(None);
+        let (negotiate, token) = match token {
+            Ok(x) => x,
+            Err(e) => return Outcome::fail("error", "conforming-challenge-rejected", format!("handshake #{} of the thread ({:?}\\{:?}): {:?}", i + 1, domain, user, e)),
+        };
+        if let Err(e) = rn::verify_authenticate(&negotiate, &challenge, &token, &cfg, user, domain, &hash) {
+            let short = e.split(|ch: char| ch == ':' || ch.is_ascii_digit()).next().unwrap_or("").trim().to_string();
+            return Outcome::fail("mismatch", format!("authenticate-rejected: {}", short), format!("handshake #{} of the thread, account {:?}\\{:?} (fresh object; earlier accounts {:?}): {}", i + 1, domain, user, &accounts[..i].iter().map(|a| format!("{}\\{}", a.0, a.1)).collect::<Vec<_>>(), e));
+        }
+    }
+    Outcome::pass(format!("accepted-{}", c.block), true)
+}
+
 impl Prop for C15 {
     fn id(&self) -> &'static str {
         "C15"
@@ -169,8 +205,10 @@ impl Prop for C15 {
             }
         }
         // value lengths
-        for len in [0usize, 2, 16, 510] {
+        for len in [0usize, 1, 2, 3, 5, 15, 16, 17, 255, 509, 510] {
             cs.push(Case { av: vec![(rn::AV_NB_DOMAIN, len), (rn::AV_TIMESTAMP, 8), (rn::AV_DNS_COMPUTER, len)], block: "av-lengths", ..base.clone() });
+            // (a target information of odd total length: one value of this length, the other even)
+            cs.push(Case { av: vec![(rn::AV_NB_DOMAIN, len), (rn::AV_TIMESTAMP, 8), (rn::AV_DNS_COMPUTER, 4)], block: "av-lengths", ..base.clone() });
         }
         // very large (but answerable) target information: the AUTHENTICATE payload then exceeds 64 KiB and its later
         // fields start beyond offset 65535 (the NT response echoes the block: 44 + len must fit 16 bits)
@@ -253,10 +291,21 @@ impl Prop for C15 {
                 cs.push(Case { flags: rn::DEFAULT_FLAGS | extra, via_hash, block: "one-more-flag-bit", ..base.clone() });
             }
         }
+        // every PAIR of flag bits the default set lacks, added together (none of them changes how NTLMv2 keys are derived)
+        {
+            let extra: Vec<u32> = (0..32u32).map(|b| 1u32 << b).filter(|e| rn::DEFAULT_FLAGS & e == 0 && *e != rn::F_OEM).collect();
+            for (i, a) in extra.iter().enumerate() {
+                for b in extra.iter().skip(i + 1) {
+                    cs.push(Case { flags: rn::DEFAULT_FLAGS | a | b, block: "two-more-flag-bits", ..base.clone() });
+                }
+            }
+            cs.push(Case { flags: 0xFFFF_FFFF & !rn::F_OEM, block: "two-more-flag-bits", ..base.clone() });
+            cs.push(Case { flags: 0xFFFF_FFFF & !rn::F_OEM, via_hash: true, block: "two-more-flag-bits", ..base.clone() });
+        }
         // create_negotiate_message called twice (the first NEGOTIATE unanswered and sent again; or answered by a
         // CHALLENGE the client refuses) before the handshake that is judged: the MIC covers the last NEGOTIATE alone
         for via_hash in [false, true] {
-            for again in [1u8, 2] {
+            for again in [1u8, 2, 3] {
                 cs.push(Case { via_hash, negotiate_again: again, block: "negotiate-sent-again", ..base.clone() });
             }
         }
@@ -272,6 +321,13 @@ impl Prop for C15 {
                 }
             }
         }
+        // state that outlives an object: accounts that differ minimally (domain case, user case, password, hash or
+        // password logon) authenticate one after the other in the same thread, each with a fresh Ntlm object
+        for via_hash in [false, true] {
+            cs.push(Case { via_hash, block: "accounts-in-a-row", ..base.clone() });
+        }
+        // the real random generator instead of the hooked one: 130 handshakes in a row in the same thread
+        cs.push(Case { block: "real-generator-130-handshakes", ..base.clone() });
         // a second handshake on the same object: every ordered pair of (VERSION, UNICODE) flag sets, both logon kinds
         let fl = |version: bool, unicode: bool| {
             let mut flags = rn::F_REQUEST_TARGET | rn::F_SIGN | rn::F_SEAL | rn::F_NTLM | rn::F_ESS | rn::F_TARGET_INFO | rn::F_128 | rn::F_KEY_EXCH;
@@ -287,6 +343,45 @@ impl Prop for C15 {
                 }
             }
         }
+        // the product of the dimensions above (what only shows when two of them coincide): flag set (VERSION x character set x
+        // neutral bits) x payload layout x target-information shape x account strings x logon kind x MaxLen fields x
+        // target name
+        {
+            let avs: Vec<Vec<(u16, usize)>> = vec![
+                default_av.clone(),
+                vec![(rn::AV_TIMESTAMP, 8), (rn::AV_NB_DOMAIN, 6)],
+                vec![(rn::AV_TIMESTAMP, 8)],
+                vec![(rn::AV_DNS_TREE, 3000), (rn::AV_TIMESTAMP, 8), (rn::AV_NB_COMPUTER, 2)],
+                vec![(rn::AV_NB_DOMAIN, 0), (rn::AV_CHANNEL_BINDINGS, 16), (rn::AV_FLAGS, 4), (rn::AV_TIMESTAMP, 8), (rn::AV_TARGET_NAME, 30)],
+                // odd total length
+                vec![(rn::AV_NB_DOMAIN, 5), (rn::AV_TIMESTAMP, 8), (rn::AV_DNS_COMPUTER, 18)],
+            ];
+            for version in [true, false] {
+                for unicode in [true, false] {
+                    for extra in [0u32, rn::F_56 | rn::F_ALWAYS_SIGN, rn::F_TARGET_TYPE_SERVER] {
+                        let mut flags = rn::F_REQUEST_TARGET | rn::F_SIGN | rn::F_SEAL | rn::F_NTLM | rn::F_ESS | rn::F_TARGET_INFO | rn::F_128 | rn::F_KEY_EXCH | extra;
+                        if version {
+                            flags |= rn::F_VERSION;
+                        }
+                        flags |= if unicode { rn::F_UNICODE } else { rn::F_OEM };
+                        let accounts: Vec<(&str, &str, &str)> = if unicode { vec![("DOM", "user", "S3cr3t-pässwörd"), ("日", "é日😀", "pä$$ 😀"), ("", "user", ""), ("contoso.local", "Alice", "x"), ("corp", "rené", "pw"), ("straße.example", "😀x", "pw")] } else { vec![("DOM", "USER", "S3cr3t-pässwörd"), ("", "USER", ""), ("CONTOSO.LOCAL", "ALICE", "x")] };
+                        for layout in 0..=3u8 {
+                            for av in &avs {
+                                for (domain, user, password) in &accounts {
+                                    for via_hash in [false, true] {
+                                        for maxlen in [None, Some((0xFFFFu16, 0u16))] {
+                                            for tn in [None, Some(String::new()), Some("a-rather-long-target-name.example.org".to_string())] {
+                                                cs.push(Case { flags, via_hash, layout, av: av.clone(), domain: domain.to_string(), user: user.to_string(), password: password.to_string(), maxlen, target_name: tn, block: "product", ..base.clone() });
+                                            }
+                                        }
+                                    }
+                                }
+                            }
+                        }
+                    }
+                }
+            }
+        }
         self.cases = cs;
         Ok(())
     }
@@ -297,7 +392,7 @@ impl Prop for C15 {
         json!({"idx": idx, "case": self.cases[idx as usize]})
     }
     fn rule(&self) -> String {
-        "cases = (domain, user, password | NT hash, server challenge, client nonce pattern, target-info block, negotiate flags). Strings: class^len for class in {a, é, 日, 😀} x len in {0,1,7,8,15,16,17,31,32,64}, every mixed string of <=3 code points over the four classes, the boundary code points of every UTF-8/UTF-16 encoding length (U+1, 7F, 80, 7FF, 800, D7FF, E000, FFFD, FFFF, 10000, 10001, FFFFF, 100000, 10FFFF) alone and between letters, a few practical names; varied one at a time and jointly (full user x domain and password x domain products in thorough); 4 challenges x 3 nonce patterns; every subset of the 9 optional AV ids with the timestamp at first/middle/last (every) position; every permutation of <=4 pairs including the timestamp; value lengths {0,2,16,510}; target information of 30000..65491 bytes (the largest the 16-bit NT response length can echo) with short and kilobyte-long names; OEM sessions with lower / mixed / upper case ASCII names; both character-set bits set; empty / 1-character / long target names (the target information then starts the payload); the target information placed before the target name, followed by 12 bytes that no field refers to, or preceded by an 8-byte gap after the header; TargetInfo / TargetName MaxLen fields set to 0, 1, 8, 0x7FFF, 0xFFFF while Len stays honest; flags with/without VERSION and UNICODE and neutral bits; every single flag bit outside the default set added alone; a NEGOTIATE sent again before the CHALLENGE (unanswered, or answered by a CHALLENGE the client refuses); REQUEST_TARGET clear with a zeroed or stale TargetName descriptor; and a second handshake on the same Ntlm object for every ordered pair of (VERSION, UNICODE) flag sets. Each AUTHENTICATE is verified by the reference MS-NLMP server: field descriptors, NTProofStr, LMv2, key-exchange unwrap, MIC, names; and hash-based == password-based. Non-trivial: every case except the base one.".into()
+        "cases = (domain, user, password | NT hash, server challenge, client nonce pattern, target-info block, negotiate flags). Strings: class^len for class in {a, é, 日, 😀} x len in {0,1,7,8,15,16,17,31,32,64}, every mixed string of <=3 code points over the four classes, the boundary code points of every UTF-8/UTF-16 encoding length (U+1, 7F, 80, 7FF, 800, D7FF, E000, FFFD, FFFF, 10000, 10001, FFFFF, 100000, 10FFFF) alone and between letters, a few practical names; varied one at a time and jointly (full user x domain and password x domain products in thorough); 4 challenges x 3 nonce patterns; every subset of the 9 optional AV ids with the timestamp at first/middle/last (every) position; every permutation of <=4 pairs including the timestamp; value lengths {0,2,16,510}; target information of 30000..65491 bytes (the largest the 16-bit NT response length can echo) with short and kilobyte-long names; OEM sessions with lower / mixed / upper case ASCII names; both character-set bits set; empty / 1-character / long target names (the target information then starts the payload); the target information placed before the target name, followed by 12 bytes that no field refers to, or preceded by an 8-byte gap after the header; TargetInfo / TargetName MaxLen fields set to 0, 1, 8, 0x7FFF, 0xFFFF while Len stays honest; flags with/without VERSION and UNICODE and neutral bits; every single flag bit outside the default set added alone; a NEGOTIATE sent again before the CHALLENGE (unanswered, or answered by a CHALLENGE the client refuses); REQUEST_TARGET clear with a zeroed or stale TargetName descriptor; nine accounts differing minimally (domain case, user case, password) authenticating one after the other in one thread on fresh objects; 130 handshakes in a row with the real random generator; and a second handshake on the same Ntlm object for every ordered pair of (VERSION, UNICODE) flag sets. Each AUTHENTICATE is verified by the reference MS-NLMP server: field descriptors, NTProofStr, LMv2, key-exchange unwrap, MIC, names; and hash-based == password-based. Non-trivial: every case except the base one. [product] 2 x 2 x 3 flag sets (VERSION, character set, neutral bits) x 4 payload layouts x 5 target-information shapes x 3-4 accounts x password | hash x MaxLen fields equal / 0xFFFF-and-0 x no / empty / long target name (10 080 cases): what only shows when two dimensions coincide. [two-more-flag-bits] every pair of flag bits the default set lacks, and all of them.".into()
     }
     fn assumptions(&self) -> Vec<String> {
         vec![
@@ -308,6 +403,9 @@ impl Prop for C15 {
     }
     fn run_case(&mut self, idx: u64) -> Outcome {
         let c = self.cases[idx as usize].clone();
+        if c.block == "accounts-in-a-row" || c.block == "real-generator-130-handshakes" {
+            return handshakes_in_a_row(&c);
+        }
         let cfg = ServerCfg {
             flags: c.flags,
             challenge: c.challenge,
@@ -327,7 +425,7 @@ impl Prop for C15 {
                 return Outcome::fail("error", "conforming-challenge-rejected", format!("earlier handshake: {:?}", e));
             }
         }
-        if c.negotiate_again > 0 {
+        if c.negotiate_again == 1 || c.negotiate_again == 2 {
             if let Err(e) = ntlm.create_negotiate_message() {
                 return Outcome::fail("error", "negotiate-error", format!("{:?}", e));
             }
@@ -340,6 +438,15 @@ impl Prop for C15 {
             Ok(n) => n,
             Err(e) => return Outcome::fail("error", "negotiate-error", format!("{:?}", e)),
         };
+        if c.negotiate_again == 3 {
+            // the answer to THIS negotiate is first a CHALLENGE the client refuses (no timestamp), then — no new NEGOTIATE in
+            // between — the one that is judged: the MIC still covers this NEGOTIATE
+            let refused = ServerCfg { flags: rn::DEFAULT_FLAGS, challenge: [0x77; 8], target_name: "X".into(), av_pairs: vec![(rn::AV_NB_DOMAIN, av_value(rn::AV_NB_DOMAIN, 4))], maxlen_override: None, layout: 0 };
+            let _ = ntlm.read_challenge_message(&rn::challenge_message(&refused));
+            let mut broken = rn::challenge_message(&cfg);
+            broken.truncate(broken.len() / 2);
+            let _ = ntlm.read_challenge_message(&broken);
+        }
         if let Err(e) = rn::parse_negotiate(&negotiate) {
             return Outcome::fail("mismatch", "negotiate-malformed", e);
         }
